@@ -187,7 +187,7 @@ def snapshot():
         for k, v in vars(m).items():
             if k == "_VERIF_SKIP_LOG" or k.startswith("__"):
                 continue
-            if isinstance(v, (dict, list, set, frozenset, tuple)):
+            if isinstance(v, (dict, list, set, frozenset, tuple, int, float, str, bool, type(None))):
                 try:
                     snap[m.__name__ + "." + k] = copy.deepcopy(v)
                 except Exception:
